@@ -20,12 +20,14 @@ import (
 
 	"go.opentelemetry.io/collector/component"
 	"go.opentelemetry.io/collector/component/componenttest"
+	"go.opentelemetry.io/collector/confmap/xconfmap"
 	"go.opentelemetry.io/collector/connector"
 	"go.opentelemetry.io/collector/connector/xconnector"
 	"go.opentelemetry.io/collector/consumer"
 	"go.opentelemetry.io/collector/consumer/xconsumer"
 	"go.opentelemetry.io/collector/exporter"
 	"go.opentelemetry.io/collector/exporter/xexporter"
+	"go.opentelemetry.io/collector/featuregate"
 	"go.opentelemetry.io/collector/pdata/plog"
 	"go.opentelemetry.io/collector/pdata/pmetric"
 	"go.opentelemetry.io/collector/pdata/pprofile"
@@ -333,7 +335,7 @@ func (w *vWorld) connFactory(t component.Type, supp [4][4]bool) connector.Factor
 	return xconnector.NewFactory(t, vDefaultCfg, o...)
 }
 
-const vMaxID = 9
+const vMaxID = 11
 
 func vSettings(w *vWorld, cfg vCfg) Settings {
 	rc, pc, ec, cc := map[component.ID]component.Config{}, map[component.ID]component.Config{}, map[component.ID]component.Config{}, map[component.ID]component.Config{}
@@ -412,6 +414,10 @@ func vCorpus() []vCfg {
 		{conns: []vConnCfg{{3, vFull()}}, pipes: []vPipeCfg{{2, 0, []int{1, 1, 2}, []int{3}, []int{3, 3, 1, 1}}, {2, 1, []int{3, 2, 3}, []int{1}, []int{2}}}},
 		// 9 partially supported: traces->metrics supported, traces->logs not, both used (allowed: "used correctly elsewhere")
 		{conns: []vConnCfg{{5, t2m}}, pipes: []vPipeCfg{{0, 0, []int{1}, nil, []int{5}}, {1, 0, []int{5}, nil, []int{1}}, {2, 0, []int{5, 1}, nil, []int{1}}}},
+		// 10 processors whose configured order is the reverse of the lexical order of their ids ("k3" > "k2" > "k11" > "k10" > "k1")
+		{pipes: []vPipeCfg{{0, 0, []int{1}, []int{3, 2, 11, 10, 1}, []int{1}}, {1, 0, []int{2}, []int{2, 10, 1}, []int{1, 2}}}},
+		// 11 rejected by validation: no exporter in one pipeline, a processor listed twice in another
+		{pipes: []vPipeCfg{{0, 0, []int{1}, []int{1}, nil}, {2, 0, []int{1}, []int{2, 1, 2}, []int{1}}, {2, 1, []int{1}, nil, []int{1}}}},
 	}
 }
 
@@ -444,7 +450,12 @@ func vGen(rnd *rand.Rand) vCfg {
 		names[s]++
 		p.recv = vPick(rnd, 1, 4, rnd.IntN(3), false)
 		p.exps = vPick(rnd, 1, 4, rnd.IntN(3), false)
-		p.procs = vPick(rnd, 1, 4, rnd.IntN(4), false)
+		p.procs = vPick(rnd, 1, 6, rnd.IntN(5), false)
+		for k, x := range p.procs { // ids 10 and 11: "k10" < "k2" - the configured order is rarely the lexical order of the ids
+			if x >= 5 {
+				p.procs[k] = x + 5
+			}
+		}
 		cfg.pipes = append(cfg.pipes, p)
 	}
 	nc := rnd.IntN(4)
@@ -517,6 +528,20 @@ func vGen(rnd *rand.Rand) vCfg {
 		}
 		rnd.Shuffle(len(p.recv), func(a, b int) { p.recv[a], p.recv[b] = p.recv[b], p.recv[a] })
 		rnd.Shuffle(len(p.exps), func(a, b int) { p.exps[a], p.exps[b] = p.exps[b], p.exps[a] })
+	}
+	// malformed stream (~6%): one pipeline fails PipelineConfig.Validate; such a configuration is never built
+	if rnd.IntN(16) == 0 {
+		p := &cfg.pipes[rnd.IntN(len(cfg.pipes))]
+		switch k := rnd.IntN(3); {
+		case k == 0:
+			p.recv = nil
+		case k == 1:
+			p.exps = nil
+		case len(p.procs) > 0:
+			p.procs = append(p.procs, p.procs[rnd.IntN(len(p.procs))])
+		default:
+			p.procs = []int{2, 10, 2}
+		}
 	}
 	return cfg
 }
@@ -633,6 +658,44 @@ func vCycleTokens(msg string) []string {
 	return toks
 }
 
+func vValidate(pcs pipelines.Config) (err error) {
+	defer func() {
+		if r := recover(); r != nil {
+			err = fmt.Errorf("panic: %v", r)
+		}
+	}()
+	return xconfmap.Validate(pcs)
+}
+
+// vValClass: sorted set of the error classes of all pipelines (xconfmap.Validate joins the errors of all entries).
+func vValClass(err error) string {
+	if err == nil {
+		return "ok"
+	}
+	msg := err.Error()
+	var cls []string
+	for _, kv := range [][2]string{{"references processor", "dupproc"}, {"must have at least one exporter", "exporters"}, {"must have at least one receiver", "receivers"}} {
+		if strings.Contains(msg, kv[0]) {
+			cls = append(cls, kv[1])
+		}
+	}
+	if len(cls) == 0 {
+		return "err=other:" + hex.EncodeToString([]byte(msg))
+	}
+	sort.Strings(cls)
+	return "err=" + strings.Join(cls, ",")
+}
+
+// vDumpPipelines: canonical text of a pipelines.Config value (pipelines sorted by id, lists in their order).
+func vDumpPipelines(pcs pipelines.Config) string {
+	var l []string
+	for id, p := range pcs {
+		l = append(l, fmt.Sprintf("%s r=%v p=%v e=%v", id.String(), p.Receivers, p.Processors, p.Exporters))
+	}
+	sort.Strings(l)
+	return strings.Join(l, ";")
+}
+
 func vBuild(set Settings) (g *Graph, err error) {
 	defer func() {
 		if r := recover(); r != nil {
@@ -679,6 +742,10 @@ func vLabelAndCount(g *Graph, w *vWorld) (toks []string, orphan int) {
 }
 
 func TestVerifC09Graph(t *testing.T) {
+	// pipelines.Config.Validate accepts profiles pipelines only behind this gate
+	if err := featuregate.GlobalRegistry().Set("service.profilesSupport", true); err != nil {
+		t.Fatal(err)
+	}
 	out := vOpen(t)
 	defer out.Close()
 	out.Linef("model c09-graph 1")
@@ -705,7 +772,24 @@ func TestVerifC09Graph(t *testing.T) {
 		out.Linef("case %d", c)
 		vEmitCfg(out, cfg)
 		w := newVWorld()
-		g, err := vBuild(vSettings(w, cfg))
+		set := vSettings(w, cfg)
+		// what otelcol always does first: validate the configuration; the SAME pipelines.Config value is built afterwards.
+		// Validation must be read-only: the value is dumped before and after.
+		before := vDumpPipelines(set.PipelineConfigs)
+		verr := vValidate(set.PipelineConfigs)
+		out.Linef("op validate")
+		out.Linef("obs validate %s", vValClass(verr))
+		if after := vDumpPipelines(set.PipelineConfigs); after != before {
+			out.Linef("viol sig=C09/validate/validation-changed-the-configuration before=%s after=%s", vHex(before), vHex(after))
+		}
+		if verr != nil {
+			out.Linef("stat rejected_validation 1")
+			out.Linef("stat pipelines %d", len(cfg.pipes))
+			out.Linef("end")
+			out.Flush()
+			continue
+		}
+		g, err := vBuild(set)
 		out.Linef("op build")
 		cls := vErrClass(err)
 		out.Linef("obs build %s", cls)
